@@ -684,3 +684,24 @@ _upd("C18", "run_satisfies_spec: all nine clauses of the trace specification hol
      "Open: the spurious-close, hooks-run, bounded and prompt clauses of the trace spec for model runs; liveness under fairness.",
      "Open: 'the driver accepts a trace' does not yet imply 'some model run has exactly this projection incl. time stamps'; the clock "
      "discipline idealises the scheduler (the 1 s slack stands for it); liveness under fairness.")
+# ---- X18: the caller's side of shutdown (Spin) and requests that are still arriving ------------------------------------
+PROPS["C18"]["rule"] += (
+    " X18: the server also runs as a process of its own under Hertz.Spin() with the default signal waiter (op c18spin; both transports): "
+    "healthy / failing registry (Deregister error: Shutdown returns early without transport.Shutdown) / stop signal during a slow OnRun "
+    "hook (before MarkAsRunning) / requests whose body is still arriving at the signal; 0..4 requests in progress; observed: responses, "
+    "exit status and time, whether anything is served later than 120 ms after the signal - compared with the canonical run of the Lean "
+    "model Hertz.Spin and judged by ShutdownSpec.spinViolations. In the in-process scenarios requests are also sent in two parts (head + "
+    "part of the body before the call, the rest during the wait / after the deadline / never; 1..4 such connections next to busy and idle "
+    "ones, both transports): their connections are replayed on the model Hertz.Arrive and judged by clause ten (partlyReceived).")
+_upd("C18", "X18: for every prompt run of the Spin layer, after the stop signal Spin returns and the process ends within ExitWaitTimeout in "
+     "every outcome of Shutdown (nil, Deregister error returned early, errStatusNotRunning), no phase of Spin can block, a connection can "
+     "be accepted after the signal only within that bound and not at all (no time passes) when the engine was not running at the signal "
+     "(spin_returns_bounded, spin_never_stuck, spin_never_serves_after_signal); for every run of the arriving-request model, either "
+     "transport, the shutdown sets no read deadline, answers no partly received request with an error, cuts none, and the rest of a partly "
+     "received request can always arrive and is answered completely until the process ends (partly_received_request_completes); both are "
+     "statements about the source as regenerated (spin_model_matches_gen), with witnesses that they fail for a Spin that waits for Run and "
+     "for a transport that expires the read deadline of all connections.")
+PROPS["C18"]["assumptions"] = [a for a in PROPS["C18"]["assumptions"] if not a.startswith("no service registry")] + [
+    "service registry: only 'Deregister succeeds / fails' (Spin layer); no hijacked connections; no TLS",
+    "Spin layer: Engine.Shutdown at the granularity of its outcomes (the ticker period is added by shutdown_bounded); main returns right after Spin",
+    "a client-side write is taken to have reached the server 10 ms later (loopback) - clause ten judges only requests written that long before the call"]
